@@ -750,3 +750,124 @@ def gradient_samples_wrt(ctx, cuqi, lines, pending, verdicts, nconf):
                              "gradient returned a value for a Samples `wrt`")
                 else:
                     verdicts["gradient:samples-wrt:refused"] = verdicts.get("gradient:samples-wrt:refused", 0) + 1
+
+
+# ------------------------------------------------------------------------------------------------ geometries re-assigned after construction
+def geometry_reassignment(ctx, cuqi, lines, pending, verdicts, oracle_jobs, nconf):
+    """Histories: build a model, THEN assign `model.domain_geometry` / `model.range_geometry` (plain public attributes) to another
+    geometry on the same function space, THEN call forward / gradient.  The Lean model object is a value whose geometries are
+    fields read at call time, so its prediction is that of a model constructed with the new geometries (driver lines carry the NEW
+    tokens).  Oracle: `oracle_forward` / `oracle_gradient` of c12.py with the CURRENT geometries (refusal iff not formable NOW)."""
+    b = _base()
+    from cuqi.array import CUQIarray
+    from cuqi.samples import Samples
+    rng = np.random.RandomState(ctx.seed + 1223)
+    cov = ctx.extra_cov.setdefault("geometry_reassignment", {})
+    IDENT = ["cont1d", "default1d", "discrete"]
+    NEWD = ["map-sq-1-1d", "map-aff-1-1d", "map-cube-0-1d", "step", "kl", "map-sq-1-1d+grad", "step+grad", "discrete", "cont1d"]
+    NEWR = ["map-aff-1-1d", "step", "map-cube-0-1d", "discrete"]
+    MK = [k for k in b.MODEL_KINDS]
+    for ci in range(nconf):
+        mk = MK[ci % len(MK)]
+        which = ["domain", "range", "domain", "both", "to-identity"][ci % 5]
+        n = int(rng.randint(2, 5))
+        if which == "to-identity":
+            D0 = b.make_geometries(cuqi, rng, n, ["map-sq-1-1d", "map-aff-1-1d", "step"][ci % 3])
+        else:
+            D0 = b.make_geometries(cuqi, rng, n, IDENT[ci % 3])
+        if D0 is None:
+            continue
+        nDf = int(np.prod(D0.fun_shape))
+        nr = nDf if mk.startswith("heat") else int(rng.randint(2, 5))
+        R0 = b.make_geometries(cuqi, rng, nr, IDENT[(ci // 3) % 3])
+        try:
+            M = b.build_model(cuqi, rng, mk, D0, R0, D0.obj, R0.obj)
+        except Exception as e:
+            ctx.note(f"reassignment: constructor refused {mk}: {type(e).__name__}")
+            continue
+        model = M.obj
+        # a first gradient / forward call on the fresh object (whatever it gives)
+        x0 = rng.randint(0, 3, size=D0.par_dim).astype(float)
+        b.call(lambda: model.forward(x0.copy()))
+        b.call(lambda: model.gradient(np.ones(R0.par_dim), x0.copy()))
+        # ---- the re-assignment
+        D, R = D0, R0
+        if which in ("domain", "both"):
+            dk = NEWD[(ci // 2) % len(NEWD)]
+            want = dk.split("+")[0]
+            if want in ("step", "kl"):
+                if nDf < 3:
+                    continue
+                D = b.make_geometries(cuqi, rng, nDf - 1, want, N_override=nDf)
+            else:
+                D = b.make_geometries(cuqi, rng, nDf, want)
+            if D is None:
+                continue
+            if dk.endswith("+grad"):
+                b.install_geom_gradient(D, "s")
+            model.domain_geometry = D.obj if not isinstance(D.obj, int) else cuqi.geometry._geometry._DefaultGeometry1D(D.obj)
+        if which in ("range", "both"):
+            rk = NEWR[(ci // 3) % len(NEWR)]
+            if rk == "step":
+                if nr < 3:
+                    continue
+                R = b.make_geometries(cuqi, rng, nr - 1, "step", N_override=nr)
+            else:
+                R = b.make_geometries(cuqi, rng, nr, rk)
+            if R is None:
+                continue
+            model.range_geometry = R.obj
+        if which == "to-identity":
+            D = b.make_geometries(cuqi, rng, nDf, IDENT[ci % 3])
+            model.domain_geometry = D.obj if not isinstance(D.obj, int) else cuqi.geometry._geometry._DefaultGeometry1D(D.obj)
+        Dg, Rg = model.domain_geometry, model.range_geometry
+        eqr = b_eq(Dg, Rg) + b_eq(Rg, Dg)
+        if "I" in eqr or "K" in eqr:
+            continue
+        loose = eqr[0] == "T" and type(Dg) is not type(Rg)
+        gD, gR = 0, 1
+        Dtok, Rtok = D.token(gD), R.token(gR)
+        canon = b.Canon(cuqi, [(Dg, gD), (Rg, gR)])
+        exact = D.exact and R.exact and M.exact
+        tol = 1e-12 if exact else b.TOL
+        conf = {"geometry_reassigned": which, "model": mk, "domain": D.label, "domain_gradient": D.gradstyle, "range": R.label, "initial_domain": D0.label,
+                "initial_range": R0.label, "n": D.par_dim, "seed_index": 980000 + ci, "geometry_eq_raises": False, "loose_geometry_eq": loose}
+        cov[f"{which}|{D0.label}->{D.label}{'+grad' if D.gradstyle else ''}|{R0.label}->{R.label}"] = cov.get(f"{which}|{D0.label}->{D.label}{'+grad' if D.gradstyle else ''}|{R0.label}->{R.label}", 0) + 1
+        lo = 0 if (D.nonneg or M.nonneg) else -3
+        x = rng.randint(lo, 4, size=D.par_dim).astype(float)
+        with quiet():
+            fx = np.asarray(Dg.par2fun(x), dtype=float)
+        Xs = rng.randint(lo, 4, size=(D.par_dim, 2)).astype(float); Xs[:, 0] = x
+        fl = lambda tok, ip=True: f"fwd {M.token} {Dtok} {Rtok} {eqr} {tok} {b.tok_bool(ip)} 1 _"
+        reps = [("nd-par", lambda: model.forward(x.copy()), fl(f"nd:{qv(x)}")),
+                ("nd-fun", lambda: model.forward(fx.copy(), is_par=False), fl(f"nd:{qv(fx.ravel())}", False)),
+                ("samples", lambda: model.forward(Samples(Xs.copy(), geometry=Dg)), fl(f"smp:1:{gD}:{qm(Xs.T)}"))]
+        if not loose:
+            reps += [("arr-par", lambda: model.forward(CUQIarray(x.copy(), is_par=True, geometry=Dg)), fl(f"arr:1:{gD}:{qv(x)}")),
+                     ("arr-fun", lambda: model.forward(CUQIarray(fx.copy(), is_par=False, geometry=Dg)), fl(f"arr:0:{gD}:{qv(fx.ravel())}"))]
+        results = {}
+        for kind, thunk, line in reps:
+            st, val = b.call(thunk)
+            c = canon(val) if st == "ok" else ("err", val)
+            results[kind] = c
+            desc = {**conf, "call": "forward", "input": kind, "x": x.tolist()}
+            ctx.case("reassigned:forward:" + kind, desc, nontrivial=True)
+            lines.append(line); pending.append((len(lines) - 1, f"tie:forward:{kind}", desc, c, tol))
+        oracle_jobs.append(("forward", conf, M, D, R, model, Dg, Rg, x, fx, Xs, None, results, gR, exact))
+        d = rng.randint(-3, 4, size=R.par_dim).astype(float)
+        wrts = [("nd-par", lambda: x.copy(), True, f"nd:{qv(x)}")]
+        dirs = [("nd-par", lambda: d.copy(), True, f"nd:{qv(d)}")]
+        if not loose:
+            wrts.append(("arr-par", lambda: CUQIarray(x.copy(), is_par=True, geometry=Dg), True, f"arr:1:{gD}:{qv(x)}"))
+            dirs.append(("arr-par", lambda: CUQIarray(d.copy(), is_par=True, geometry=Rg), True, f"arr:1:{gR}:{qv(d)}"))
+        gres = {}
+        for (wk, wth, iwp, wtok) in wrts:
+            for (dk_, dth, idp, dtok) in dirs:
+                st, val = b.call(lambda: model.gradient(dth(), wth(), is_direction_par=idp, is_wrt_par=iwp))
+                c = canon(val) if st == "ok" else ("err", val)
+                gres[(wk, dk_)] = c
+                desc = {**conf, "call": "gradient", "wrt": wk, "direction": dk_, "x": x.tolist(), "d": d.tolist()}
+                ctx.case(f"reassigned:gradient:{wk}:{dk_}", desc, nontrivial=True)
+                lines.append(f"grad {M.token} {Dtok} {Rtok} {eqr} {dtok} {wtok} {b.tok_bool(idp)} {b.tok_bool(iwp)}")
+                pending.append((len(lines) - 1, f"tie:gradient:wrt-{wk}:dir-{dk_}", desc, c, tol))
+        oracle_jobs.append(("gradient", conf, M, D, R, model, Dg, Rg, x, fx, d, gres, exact))
